@@ -38,11 +38,13 @@ func c08Programs() map[string]e3Spec {
 			"TestC":        {Calls: []e3Call{snap("default")}},
 		},
 		"P2-custom-files": {
-			"TestA":   {Calls: []e3Call{snap("filename")}, Subs: []e3Sub{{Name: "x", Calls: []e3Call{snap("filename")}}}},
-			"TestB":   {Calls: []e3Call{snap("ext")}},
-			"TestSub": {Calls: []e3Call{{API: "ssnap", Cfg: "default"}, {API: "ssnap", Cfg: "default"}}, Subs: []e3Sub{{Name: "sub", Calls: []e3Call{{API: "ssnap", Cfg: "default"}}}}},
-			"TestAB":  {Calls: []e3Call{{API: "sjson", Cfg: "default"}}},
-			"Test1":   {Calls: []e3Call{snap("default")}},
+			"TestA": {Calls: []e3Call{snap("filename")}, Subs: []e3Sub{{Name: "x", Calls: []e3Call{snap("filename")}}}},
+			"TestB": {Calls: []e3Call{snap("ext")}},
+			"TestSub": {Calls: []e3Call{{API: "ssnap", Cfg: "default"}, {API: "ssnap", Cfg: "default"}}, Subs: []e3Sub{{Name: "sub", Calls: []e3Call{{API: "ssnap", Cfg: "default"}}},
+				// subtests whose names hold characters outside [0-9A-Za-z_]: their standalone files belong to the (skipped) ancestor all the same
+				{Name: "en-GB", Calls: []e3Call{{API: "ssnap", Cfg: "default"}}}, {Name: "v1.2=x", Calls: []e3Call{{API: "sjson", Cfg: "default"}}}}},
+			"TestAB": {Calls: []e3Call{{API: "sjson", Cfg: "default"}}},
+			"Test1":  {Calls: []e3Call{snap("default")}},
 		},
 		"P4-nested-skips": {
 			"TestA": {Calls: []e3Call{snap("default")}, Subs: []e3Sub{
